@@ -94,8 +94,8 @@ func (cr *CryptoSignAuthenticator) Authenticate(sid wamp.ID, details wamp.Dict, 
 
 	authRsp, ok := msg.(*wamp.Authenticate)
 	if !ok {
-		return nil, fmt.Errorf("unexpected %v message received from client %v",
-			msg.MessageType(), client)
+		return nil, fmt.Errorf("unexpected %v message received from client",
+			msg.MessageType())
 	}
 
 	verify, err := cr.verifySignature(authRsp.Signature, key, challenge)
